@@ -26,10 +26,10 @@ N_CRIT = 10
 def criterion(k, apid):
     return [
         (Cmp(apid, "==", "1"),),
-        (Cmp(apid, "==", "2"),),
-        (Cmp(apid, "!=", "1"),),                       # overlaps with ==2 => ambiguity
+        (Cmp(apid, "==", "02"),),                      # a leading zero: still the number 2
+        (Cmp(apid, "!=", " +1 "),),                    # sign and blanks: still 1; overlaps with ==2 => ambiguity
         (Cmp("SEL", "<", "2"),),                        # on a user-data field of the root
-        (Cmp(apid, "==", "1"), Cmp("SEL", "==", "0")),  # comparison list
+        (Cmp(apid, "==", "1"), Cmp("SEL", "==", "00")),  # comparison list
         (BoolExpr(Or((Cond("SEL", "==", right_value="1", right_cal=False), Cond(apid, "==", right_value="2", right_cal=False)))),),
         None,                                           # BaseContainer without RestrictionCriteria
         # two-parameter condition whose selectors differ; CSEL is calibrated (2x), so raw and calibrated disagree
